@@ -4,7 +4,8 @@
 //                                               -mavx2 | -mavx2 -mfma -DGLM_FORCE_FMA>  -I$REPO -I$VERIF diff/C03.cpp
 // and run as   C03 <seed> <count>   printing, for every operation of the table (trace/fake_intrin/c03_ops.hpp, shared
 // with the tracer TU trace/units/C03.cpp) and every seeded input,
-//      <op> in-bits… -> out-bits…            (decimal 32-bit patterns; NaN results canonicalised to 2143289344)
+//      <op> in-bits… -> out-bits…            (decimal bit patterns: 32-bit, 64-bit for the double operations `d_…`;
+//                                             NaN results canonicalised to the default quiet NaN)
 // The pure build uses packed_highp types, the simd build aligned_highp (…_mediump / …_lowp for the `<op>_mediump`,
 // `<op>_lowp` lines) and additionally prints `kern_<fn>` lines for the kernels of glm/simd/*.h.  Inputs depend only on
 // (seed, op name, index), so the two outputs can be diffed line by line; the first line is a `# build=…` comment.
@@ -75,22 +76,25 @@ static uint32_t gen_int(Rng& r, int cls) {
 static uint32_t fbits(float f) { uint32_t b; std::memcpy(&b, &f, 4); if ((b & 0x7fffffffu) > 0x7f800000u) b = 0x7fc00000u; return b; }
 
 struct LineReg {
-  using F = float; using I = int; using U = unsigned;
+  using F = float; using D = double; using I = int; using U = unsigned;
   template<glm::qualifier Q> using QT = c03::QT<Q>;
   uint64_t seed; int count; const char* prefix;
   bool want(std::string const& op) const { return !prefix || op.compare(0, strlen(prefix), prefix) == 0; }
 
-  template<class Fn> void run_f(std::string const& op, int nin, int nout, Fn f) {
+  static void put(float v, bool canon) { uint32_t b; std::memcpy(&b, &v, 4); if (canon && (b & 0x7fffffffu) > 0x7f800000u) b = 0x7fc00000u; printf(" %u", b); }
+  static void put(double v, bool canon) { uint64_t b; std::memcpy(&b, &v, 8); if (canon && (b & 0x7fffffffffffffffull) > 0x7ff0000000000000ull) b = 0x7ff8000000000000ull; printf(" %llu", (unsigned long long)b); }
+  template<class S, class Fn> void run_f(std::string const& op, int nin, int nout, Fn f) {
     if (!want(op)) return;
-    Rng r(seed ^ hash_name(op)); std::vector<float> in(nin), out(nout);
+    Rng r(seed ^ hash_name(op)); std::vector<S> in(nin), out(nout);
     for (int k = 0; k < count; ++k) {
       int cls = k % 10 < 3 ? 0 : k % 10 < 5 ? 1 : k % 10 < 8 ? 2 : k % 10 == 8 ? 3 : 4;
-      for (int i = 0; i < nin; ++i) in[i] = gen_float(r, cls);
-      if (cls == 4 || k % 7 == 3) for (int i = 0; i < nin; ++i) if (r.next() % 3) in[i] = gen_float(r, 2);      // specials diluted; mixed classes
-      for (int j = 0; j < nout; ++j) out[j] = 0.0f;
+      for (int i = 0; i < nin; ++i) in[i] = (S)gen_float(r, cls);
+      if (cls == 4 || k % 7 == 3) for (int i = 0; i < nin; ++i) if (r.next() % 3) in[i] = (S)gen_float(r, 2);      // specials diluted; mixed classes
+      if (sizeof(S) == 8 && cls == 2) for (int i = 0; i < nin; ++i) in[i] = (S)(r.unit() * 8.0 - 4.0);            // full double mantissas
+      for (int j = 0; j < nout; ++j) out[j] = S(0);
       f(in.data(), out.data());
-      printf("%s", op.c_str()); for (int i = 0; i < nin; ++i) { uint32_t b; std::memcpy(&b, &in[i], 4); printf(" %u", b); }
-      printf(" ->"); for (int j = 0; j < nout; ++j) printf(" %u", fbits(out[j])); printf("\n");
+      printf("%s", op.c_str()); for (int i = 0; i < nin; ++i) put(in[i], false);
+      printf(" ->"); for (int j = 0; j < nout; ++j) put(out[j], true); printf("\n");
     }
   }
   template<class T, class Fn> void run_i(std::string const& op, int nin, int nout, Fn f) {
@@ -117,18 +121,18 @@ struct LineReg {
 #  define C03_MP glm::packed_mediump
 #  define C03_LP glm::packed_lowp
 #endif
-  template<class Fn> void fam(std::string const& op, int nin, int nout, Fn f) { run_f(op, nin, nout, [f](float const* x, float* o) { f(x, o, QT<C03_HP>()); }); }
-  template<class Fn> void fam_q(std::string const& op, int nin, int nout, Fn f) {
-    fam(op, nin, nout, f);
-    run_f(op + "_mediump", nin, nout, [f](float const* x, float* o) { f(x, o, QT<C03_MP>()); });
-    run_f(op + "_lowp", nin, nout, [f](float const* x, float* o) { f(x, o, QT<C03_LP>()); });
+  template<class S, class Fn> void fam(std::string const& op, int nin, int nout, Fn f) { run_f<S>(op, nin, nout, [f](S const* x, S* o) { f(x, o, QT<C03_HP>()); }); }
+  template<class S, class Fn> void fam_q(std::string const& op, int nin, int nout, Fn f) {
+    fam<S>(op, nin, nout, f);
+    run_f<S>(op + "_mediump", nin, nout, [f](S const* x, S* o) { f(x, o, QT<C03_MP>()); });
+    run_f<S>(op + "_lowp", nin, nout, [f](S const* x, S* o) { f(x, o, QT<C03_LP>()); });
   }
-  template<class QQ, class Fn> void simd_only(std::string const& op, int nin, int nout, QQ qq, Fn f) {
+  template<class S, class QQ, class Fn> void simd_only(std::string const& op, int nin, int nout, QQ qq, Fn f) {
 #if C03_SIMD
-    run_f(op, nin, nout, [f, qq](float const* x, float* o) { f(x, o, qq); });
+    run_f<S>(op, nin, nout, [f, qq](S const* x, S* o) { f(x, o, qq); });
 #endif
   }
-  template<class Fn> void kern(std::string const& fn, int nin, int nout, Fn f) { run_f("kern_" + fn, nin, nout, f); }
+  template<class Fn> void kern(std::string const& fn, int nin, int nout, Fn f) { run_f<float>("kern_" + fn, nin, nout, f); }
   template<class Fn> void ifam(std::string const& op, int nin, int nout, Fn f) { run_i<int>(op, nin, nout, [f](int const* x, int* o) { f(x, o, QT<C03_HP>()); }); }
   template<class Fn> void ufam(std::string const& op, int nin, int nout, Fn f) { run_i<unsigned>(op, nin, nout, [f](unsigned const* x, unsigned* o) { f(x, o, QT<C03_HP>()); }); }
   template<class Fn> void ikern(std::string const& fn, int nin, int nout, Fn f) { run_i<int>("kern_" + fn, nin, nout, f); }
